@@ -8,5 +8,5 @@ mkdir -p harness/bin evidence replays .build
 if [ -d harness/extract ]; then (cd harness/extract && go1.26 build -o ../bin/extract .); harness/bin/extract -repo /repo -out lean/RqModel/Gen; fi
 (cd lean && lake build)
 # warm the Go build cache (cgo SQLite) so the first check is not the slow one
-(cd /repo && go1.26 build -tags verif ./... && go1.26 test -tags verif -vet=off -count=1 -run '^$' ./... >/dev/null 2>&1 || true)
+[ -n "$VERIF_SETUP_LIGHT" ] || (cd /repo && go1.26 build -tags verif ./... && go1.26 test -tags verif -vet=off -count=1 -run '^$' ./... >/dev/null 2>&1 || true)
 echo setup done
